@@ -53,6 +53,16 @@ def run(ev, vd):
         elif rc not in (0, 43, 44):
             raise ToolError("hb harness failed rc=%s (%s):\n%s" % (rc, mode, o[-1500:]))
         paths.append(out)
+    # (o) implementation-shaped models of the pointer lock (CAS fast path, spin + fetch_or slow path) and of the per-thread
+    # reader/writer lock (writers take all slots in a fixed order), each with the mutant its protocol protects against
+    for mod in ("PtrLock", "RWLock"):
+        r0 = tlc(os.path.join(SP, mod + ".tla"), cfg=os.path.join(SP, mod + ".cfg"), workers=8, timeout=900)
+        ev.add_tlc(mod + ".cfg", r0)
+        if not r0.ok:
+            raise ToolError("%s violates %s" % (mod, r0.violation))
+        r0 = tlc(os.path.join(SP, mod + ".tla"), cfg=os.path.join(SP, mod + "_mutant.cfg"), workers=8, timeout=900)
+        if r0.ok:
+            raise ToolError("%s does not distinguish its mutant (vacuous model?)" % mod)
     # (i) model with extracted orders
     orders, raw = extract_orders(paths[0])
     ev.cov["memory_orders_extracted_from_code"] = dict(orders=orders, observed=raw)
